@@ -1,67 +1,76 @@
-(* C01 — the batch-size setter (_batch_size_setter + _check_new_batch_size) keeps a tree coherent, for ok and raising
-   outcomes, as long as no hollow node (empty TensorDict / NonTensorData) lies below the node (findings D101, D102). *)
+(* C01 — the batch-size setter (_batch_size_setter + _check_new_batch_size, as repaired by fixes/C01/D101_D102_D110.diff:
+   pure recursive check first, then nested collections that do not extend the new size are resized).
+   * success: the result is coherent in every context whose size is a prefix of the new one — no other hypothesis;
+   * failure: the tree left behind is coherent when no node below carries dim names (then the only failure is the
+     check, which modifies nothing); a failure of the names assignment of the node itself is covered too. *)
 From Coq Require Import List String Bool Arith Lia.
 Import ListNotations.
-From TD Require Import Model.C01_Tree Model.C01_Ops Proofs.C01_TreeP Proofs.C01_NamesP.
+From TD Require Import Model.C01_Tree Model.C01_Ops Model.C01_Scope Proofs.C01_TreeP Proofs.C01_NamesP.
 Open Scope string_scope.
 Open Scope list_scope.
 
 Definition grow (new : list nat) (c : tree) : tree * bool :=
   match c with
   | Leaf _ _ => (c, true)
-  | Node _ cbs _ _ _ => if Nat.ltb (List.length cbs) (List.length new) then set_bs true c new else (c, true)
+  | Node _ cbs _ _ _ => if negb (prefixb new cbs) then set_bs true c new else (c, true)
   end.
+
+Definition new_names (names : list (option string)) (new : list nat) : list (option string) :=
+  if Nat.ltb (List.length names) (List.length new)
+  then names ++ repeat None (List.length new - List.length names)
+  else firstn (List.length new) names.
 
 Lemma set_bs_node : forall sz k bs dv nm es new,
   set_bs sz (Node k bs dv nm es) new =
   if sz && shape_eqb new bs then (Node k bs dv nm es, true)
+  else if negb (check_new_t new (Node k bs dv nm es)) then (Node k bs dv nm es, false)
   else
     let '(es1, ok1) := seq_children (grow new) es in
     if negb ok1 then (Node k bs dv nm es1, false)
-    else if negb (check_new new es1) then (Node k bs dv nm es1, false)
     else match nm with
          | None => (Node k new dv None es1, true)
-         | Some names =>
-             set_names (Node k new dv None es1)
-               (Some (if Nat.ltb (List.length names) (List.length new)
-                      then names ++ repeat None (List.length new - List.length names)
-                      else firstn (List.length new) names))
+         | Some names => set_names (Node k new dv None es1) (Some (new_names names new))
          end.
 Proof. reflexivity. Qed.
 
-Lemma leaves_pref_weaken : forall t a b, prefixb a b = true -> leaves_pref b t = true -> leaves_pref a t = true.
+(* what the check says about one entry *)
+Definition entry_ok (new : list nat) (c : tree) : bool :=
+  match c with
+  | Leaf sh _ => prefixb new sh
+  | Node _ cbs _ _ _ =>
+      if Nat.ltb (List.length cbs) (List.length new) || (negb (prefixb new cbs) && is_empty c)
+      then check_new_t new c else prefixb new cbs
+  end.
+
+Lemma check_new_node : forall new k bs dv nm es,
+  check_new_t new (Node k bs dv nm es) = forallb (fun kv => entry_ok new (snd kv)) es.
 Proof.
-  induction t as [sh dd|k bs dv nm es IH] using tree_ind2; intros a b Hab H; cbn in *.
-  - eapply prefixb_trans; eauto.
-  - rewrite forallb_forall in *. rewrite Forall_forall in IH. intros kv Hin. eapply IH; eauto.
+  intros. cbn [check_new_t]. induction es as [|[key c] r IH]; [reflexivity|].
+  cbn [forallb snd]. rewrite IH. destruct c; reflexivity.
 Qed.
 
-Lemma coh_leaves_pref_self : forall t p d, coh p d t = true -> leaves_pref (tshape t) t = true.
+(* an entry that is resized passed the recursive check; an entry that is not has the new size as leading dims *)
+Lemma entry_ok_cases : forall new c,
+  entry_ok new c = true ->
+  match c with
+  | Leaf sh _ => prefixb new sh = true
+  | Node _ cbs _ _ _ => if prefixb new cbs then True else check_new_t new c = true
+  end.
 Proof.
-  intros [sh dd|k bs dv nm es] p d H; cbn.
-  - apply prefixb_refl.
-  - apply coh_node_iff in H as (_ & _ & _ & H4). apply forallb_forall. intros kv Hin.
-    apply coh_ents_forall in H4. rewrite Forall_forall in H4. eapply coh_leaves_pref. apply (H4 _ Hin).
+  intros new [sh d|k cbs dv nm es] H; cbn [entry_ok] in H; [exact H|].
+  destruct (prefixb new cbs) eqn:Ep; [exact I|].
+  destruct (Nat.ltb (List.length cbs) (List.length new) || (negb false && is_empty (Node k cbs dv nm es))); [exact H|discriminate].
 Qed.
 
-Lemma is_empty_leaves_pref : forall t a, is_empty t = true -> leaves_pref a t = true.
-Proof.
-  induction t as [sh dd|k bs dv nm es IH] using tree_ind2; intros a H; cbn in *; [discriminate|].
-  destruct k; [|discriminate]. rewrite forallb_forall in *. rewrite Forall_forall in IH. intros kv Hin. eapply IH; eauto.
-Qed.
-
-(* success: the node has the new size *)
 Lemma set_bs_ok_shape : forall sz t new t', set_bs sz t new = (t', true) -> is_node t = true -> tshape t' = new.
 Proof.
   intros sz [sh d|k bs dv nm es] new t' H Hn; [discriminate|]. rewrite set_bs_node in H.
   destruct (sz && shape_eqb new bs) eqn:E0.
   - injection H as <-. apply andb_true_iff in E0 as [_ E0]. apply shape_eqb_eq in E0. now subst.
-  - destruct (seq_children (grow new) es) as [es1 ok1]. destruct ok1; cbn [negb] in H; [|discriminate].
-    destruct (check_new new es1); cbn [negb] in H; [|discriminate].
+  - destruct (check_new_t new (Node k bs dv nm es)); cbn [negb] in H; [|discriminate].
+    destruct (seq_children (grow new) es) as [es1 ok1]. destruct ok1; cbn [negb] in H; [|discriminate].
     destruct nm as [names|].
-    + replace t' with (fst (set_names (Node k new dv None es1)
-         (Some (if Nat.ltb (List.length names) (List.length new) then names ++ repeat None (List.length new - List.length names)
-                else firstn (List.length new) names)))) by now rewrite H.
+    + replace t' with (fst (set_names (Node k new dv None es1) (Some (new_names names new)))) by now rewrite H.
       now rewrite set_names_shape.
     + now injection H as <-.
 Qed.
@@ -70,121 +79,121 @@ Lemma set_bs_is_node : forall sz t new, is_node (fst (set_bs sz t new)) = is_nod
 Proof.
   intros sz [sh d|k bs dv nm es] new; [reflexivity|]. rewrite set_bs_node.
   destruct (sz && shape_eqb new bs); [reflexivity|].
+  destruct (check_new_t new (Node k bs dv nm es)); cbn [negb]; [|reflexivity].
   destruct (seq_children (grow new) es) as [es1 ok1]. destruct ok1; cbn [negb]; [|reflexivity].
-  destruct (check_new new es1); cbn [negb]; [|reflexivity].
   destruct nm; [|reflexivity]. now rewrite set_names_is_node.
 Qed.
 
-Lemma set_bs_holds : forall t sz new, holds_tensor (fst (set_bs sz t new)) = holds_tensor t.
+(* the entries after a successful resize loop are coherent under the NEW size *)
+Lemma grown_entries_coh : forall new bs dv es es1,
+  (forall kv, In kv es -> forall sz new t' p d, coh p d (snd kv) = true -> set_bs sz (snd kv) new = (t', true) -> prefixb p new = true -> coh p d t' = true) ->
+  coh_ents bs dv es = true ->
+  forallb (fun kv => entry_ok new (snd kv)) es = true ->
+  seq_children (grow new) es = (es1, true) ->
+  coh_ents new dv es1 = true.
 Proof.
-  induction t as [sh dd|k bs dv nm es IH] using tree_ind2; intros sz new; [reflexivity|].
-  rewrite set_bs_node. destruct (sz && shape_eqb new bs); [reflexivity|].
-  assert (Hes : existsb (fun kv => holds_tensor (snd kv)) (fst (seq_children (grow new) es)) = existsb (fun kv => holds_tensor (snd kv)) es).
-  { apply seq_children_holds. eapply Forall_impl; [|exact IH]. intros [key c] IHc. cbn [snd] in *.
-    destruct c as [sh dd|ck cbs cdv cnm ces]; [reflexivity|]. cbn [grow].
-    destruct (Nat.ltb (List.length cbs) (List.length new)); [apply IHc|reflexivity]. }
-  destruct (seq_children (grow new) es) as [es1 ok1]. cbn [fst] in Hes.
-  destruct ok1; cbn [negb]; [|exact Hes].
-  destruct (check_new new es1); cbn [negb]; [|exact Hes].
-  destruct nm; [|exact Hes]. rewrite set_names_holds. exact Hes.
-Qed.
-
-(* if the result carries the new size, every tensor below has it as leading dims (or nothing had to change) *)
-Lemma set_bs_leaves : forall t sz new p d,
-  coh p d t = true -> is_node t = true -> tshape (fst (set_bs sz t new)) = new ->
-  tshape t = new \/ leaves_pref new t = true.
-Proof.
-  induction t as [sh dd|k bs dv nm es IH] using tree_ind2; intros sz new p d Hc Hn Hs; [discriminate|].
-  rewrite set_bs_node in Hs.
-  destruct (sz && shape_eqb new bs) eqn:E0; [left; exact Hs|].
-  destruct (seq_children (grow new) es) as [es1 ok1] eqn:E1.
-  destruct ok1; cbn [negb] in Hs; [|left; exact Hs].
-  destruct (check_new new es1) eqn:E2; cbn [negb] in Hs; [|left; exact Hs].
-  right. clear Hs. apply coh_node_iff in Hc as (_ & _ & _ & H4).
-  apply seq_children_ok in E1. unfold check_new in E2. rewrite forallb_forall in E2.
-  apply coh_ents_forall in H4. cbn [leaves_pref]. apply forallb_forall.
-  revert E1 E2 IH H4. generalize es1. clear. intros es1 E1.
-  induction E1 as [|[key c] [key' c'] r r' [Hk Hg] HF2 IHF]; intros E2 IH H4 kv Hin; [contradiction|].
-  cbn [fst snd] in *. inversion IH as [|? ? IHc IHr]; subst. inversion H4 as [|? ? Hc Hr]; subst. cbn [snd] in *.
-  destruct Hin as [<-|Hin].
-  2: { apply IHF; auto. intros x Hx. apply E2. now right. }
-  cbn [snd]. specialize (E2 (key, c') (or_introl eq_refl)). cbn [snd] in E2.
+  intros new bs dv es es1 IH Hc Hchk Hseq.
+  apply seq_children_ok in Hseq. apply coh_ents_forall. apply Forall_forall. intros [key' c'] Hin'.
+  destruct (Forall2_in_r _ _ _ _ _ Hseq _ Hin') as ([key c] & Hin & Hk & Hg). cbn [fst snd] in *.
+  apply coh_ents_forall in Hc. rewrite Forall_forall in Hc. pose proof (Hc _ Hin) as Hcc. cbn [snd] in Hcc.
+  rewrite forallb_forall in Hchk. pose proof (Hchk _ Hin) as He. cbn [snd] in He. apply entry_ok_cases in He.
   destruct c as [sh dd|ck cbs cdv cnm ces].
-  - cbn in Hg. injection Hg as <-. cbn [tshape is_node andb] in E2. rewrite orb_false_r in E2. exact E2.
-  - cbn [grow] in Hg. destruct (Nat.ltb (List.length cbs) (List.length new)) eqn:El.
+  - cbn in Hg. injection Hg as <-. eapply coh_reprefix; eauto.
+  - cbn [grow] in Hg. destruct (prefixb new cbs) eqn:Ep; cbn [negb] in Hg.
+    + injection Hg as <-. eapply coh_reprefix; eauto.
     + pose proof (set_bs_ok_shape _ _ _ _ Hg eq_refl) as Hsh.
-      destruct (IHc true new bs dv Hc eq_refl) as [Heq|Hl]; [now rewrite Hg| |exact Hl].
-      cbn in Heq. subst. apply Nat.ltb_lt in El. lia.
-    + injection Hg as <-. apply orb_true_iff in E2 as [E2|E2].
-      * eapply leaves_pref_weaken; [exact E2|]. apply (coh_leaves_pref_self _ _ _ Hc).
-      * apply andb_true_iff in E2 as [_ E2]. now apply is_empty_leaves_pref.
+      eapply coh_reprefix; [|rewrite Hsh; apply prefixb_refl].
+      apply (IH _ Hin true new c' [] dv); [|exact Hg|apply prefixb_nil]. cbn [snd].
+      eapply coh_weaken; [exact Hcc|apply prefixb_nil].
 Qed.
 
-(* a node that holds a tensor and ends up with the new size: the context's size is a prefix of the new one *)
-Lemma set_bs_prefix : forall t sz new p d,
-  coh p d t = true -> is_node t = true -> holds_tensor t = true -> List.length p <= List.length new ->
-  tshape (fst (set_bs sz t new)) = new -> prefixb p new = true.
+(* success: coherent wherever the context's size is a prefix of the new one *)
+Lemma set_bs_ok_coh : forall t sz new t' p d,
+  coh p d t = true -> set_bs sz t new = (t', true) -> prefixb p new = true -> coh p d t' = true.
 Proof.
-  intros t sz new p d Hc Hn Hh Hl Hs.
-  destruct (set_bs_leaves t sz new p d Hc Hn Hs) as [Heq|Hlv].
-  - destruct t as [|k bs dv nm es]; [discriminate|]. cbn in Heq. subst. now apply coh_node_iff in Hc as (Hc & _).
-  - eapply leaves_pref_common; eauto. eapply coh_leaves_pref; eauto.
+  induction t as [sh dd|k bs dv nm es IH] using tree_ind2; intros sz new t' p d Hc H Hp.
+  - cbn in H. now injection H as <-.
+  - rewrite set_bs_node in H.
+    destruct (sz && shape_eqb new bs); [now injection H as <-|].
+    destruct (check_new_t new (Node k bs dv nm es)) eqn:Echk; cbn [negb] in H; [|discriminate].
+    rewrite check_new_node in Echk.
+    destruct (seq_children (grow new) es) as [es1 ok1] eqn:Eseq. destruct ok1; cbn [negb] in H; [|discriminate].
+    apply coh_node_iff in Hc as (H1 & H2 & H3 & H4).
+    assert (Hes1 : coh_ents new dv es1 = true).
+    { eapply grown_entries_coh; eauto. rewrite Forall_forall in IH. intros kv Hin. apply (IH _ Hin). }
+    assert (Hnode : coh p d (Node k new dv None es1) = true) by (apply coh_node_iff; auto).
+    destruct nm as [names|].
+    + replace t' with (fst (set_names (Node k new dv None es1) (Some (new_names names new)))) by now rewrite H.
+      now apply set_names_coh.
+    + now injection H as <-.
 Qed.
 
-Lemma hollow_free_child : forall k bs dv nm es kv,
-  hollow_free (Node k bs dv nm es) = true -> In kv es ->
-  (is_node (snd kv) = true -> holds_tensor (snd kv) = true) /\ hollow_free (snd kv) = true.
+(* ---- without dim names below, a resize that passed the check cannot fail ---- *)
+Lemma seq_children_all_ok : forall f es,
+  (forall kv, In kv es -> snd (f (snd kv)) = true) -> snd (seq_children f es) = true.
 Proof.
-  intros k bs dv nm es kv H Hin. cbn in H. rewrite forallb_forall in H. specialize (H _ Hin).
-  apply andb_true_iff in H as [H1 H2]. split; [|exact H2]. intros Hn. rewrite Hn in H1. exact H1.
+  intros f. induction es as [|[key c] r IH]; intros H; [reflexivity|].
+  rewrite seq_children_cons. pose proof (H (key, c) (or_introl eq_refl)) as Hc. cbn [snd] in Hc.
+  destruct (f c) as [c' okc]. cbn [snd] in Hc. subst okc.
+  assert (Hr : snd (seq_children f r) = true) by (apply IH; intros kv Hin; apply H; now right).
+  destruct (seq_children f r) as [r' ok]. exact Hr.
 Qed.
 
-(* the main lemma: whatever the outcome, the tree left behind is coherent in its context; the context's size has to be
-   a prefix of the new one only if the node really ends up with the new size *)
+Lemma set_bs_total : forall t new, no_names t = true -> check_new_t new t = true -> snd (set_bs true t new) = true.
+Proof.
+  induction t as [sh dd|k bs dv nm es IH] using tree_ind2; intros new Hn Hchk; [reflexivity|].
+  rewrite set_bs_node. destruct (true && shape_eqb new bs); [reflexivity|].
+  rewrite Hchk. cbn [negb]. cbn [no_names] in Hn. apply andb_true_iff in Hn as [Hnm Hnn].
+  destruct nm; [discriminate|].
+  assert (Hok : snd (seq_children (grow new) es) = true).
+  { apply seq_children_all_ok. intros [key c] Hin. cbn [snd]. rewrite Forall_forall in IH.
+    rewrite check_new_node, forallb_forall in Hchk. pose proof (Hchk _ Hin) as He. cbn [snd] in He. apply entry_ok_cases in He.
+    rewrite forallb_forall in Hnn. pose proof (Hnn _ Hin) as Hcn. cbn [snd] in Hcn.
+    destruct c as [|ck cbs cdv cnm ces]; [reflexivity|]. cbn [grow].
+    destruct (prefixb new cbs); cbn [negb]; [reflexivity|]. apply (IH _ Hin); auto. }
+  destruct (seq_children (grow new) es) as [es1 ok1]. cbn [snd] in Hok. subst ok1. reflexivity.
+Qed.
+
+(* both outcomes, for a node whose descendants carry no dim names *)
 Lemma set_bs_coh : forall t sz new p d,
-  coh p d t = true -> hollow_free t = true ->
-  (tshape (fst (set_bs sz t new)) = new -> prefixb p new = true) ->
-  coh p d (fst (set_bs sz t new)) = true.
+  coh p d t = true -> no_names_below t = true -> prefixb p new = true -> coh p d (fst (set_bs sz t new)) = true.
 Proof.
-  induction t as [sh dd|k bs dv nm es IH] using tree_ind2; intros sz new p d Hc Hf Hp; [exact Hc|].
-  pose proof Hc as Hall. apply coh_node_iff in Hc as (H1 & H2 & H3 & H4).
-  rewrite set_bs_node in *.
-  destruct (sz && shape_eqb new bs) eqn:E0; [exact Hall|].
-  destruct (seq_children (grow new) es) as [es1 ok1] eqn:E1.
-  (* the entries after the growth loop are coherent under the OLD size *)
-  assert (Hes1 : coh_ents bs dv es1 = true).
-  { replace es1 with (fst (seq_children (grow new) es)) by now rewrite E1.
-    apply seq_children_coh; [exact H4|]. rewrite Forall_forall in IH. apply Forall_forall. intros [key c] Hin Hcc.
-    cbn [snd] in *. destruct c as [sh dd|ck cbs cdv cnm ces]; [exact Hcc|]. cbn [grow].
-    destruct (Nat.ltb (List.length cbs) (List.length new)) eqn:El; [|exact Hcc].
-    destruct (hollow_free_child _ _ _ _ _ _ Hf Hin) as [Hh Hfc]. cbn [snd] in *.
-    apply (IH _ Hin); auto. intros Hs. apply Nat.ltb_lt in El.
-    eapply (set_bs_prefix (Node ck cbs cdv cnm ces)); eauto.
-    apply coh_node_iff in Hcc as (Hcc & _). apply prefixb_length in Hcc. lia. }
-  destruct ok1; cbn [negb] in *; [|apply coh_node_iff; auto].
-  destruct (check_new new es1) eqn:E2; cbn [negb] in *; [|apply coh_node_iff; auto].
-  (* the check passed: the entries are coherent under the NEW size *)
-  assert (Hnew : coh_ents new dv es1 = true).
-  { apply seq_children_ok in E1. unfold check_new in E2. rewrite forallb_forall in E2.
-    apply coh_ents_forall. apply Forall_forall. intros [key' c'] Hin'.
-    apply coh_ents_forall in Hes1. rewrite Forall_forall in Hes1. pose proof (Hes1 _ Hin') as Hc'. cbn [snd] in *.
-    specialize (E2 _ Hin'). cbn [snd] in E2.
-    apply orb_true_iff in E2 as [E2|E2]; [eapply coh_reprefix; eauto|].
-    (* an empty nested node would be hollow *)
-    exfalso. apply andb_true_iff in E2 as [En Ee].
-    destruct (Forall2_in_r _ _ _ _ _ E1 _ Hin') as ([key c] & Hin & Hk & Hg). cbn [fst snd] in *.
-    destruct (hollow_free_child _ _ _ _ _ _ Hf Hin) as [Hh _]. cbn [snd] in Hh.
-    assert (Hn : is_node c = true).
-    { destruct c; [cbn in Hg; injection Hg as <-; discriminate|reflexivity]. }
-    specialize (Hh Hn). apply is_empty_no_tensor in Ee.
-    assert (Hht : holds_tensor c' = holds_tensor c).
-    { destruct c as [|ck cbs cdv cnm ces]; [discriminate|]. cbn [grow] in Hg.
-      destruct (Nat.ltb (List.length cbs) (List.length new)); [|now injection Hg as <-].
-      replace c' with (fst (set_bs true (Node ck cbs cdv cnm ces) new)) by now rewrite Hg.
-      apply set_bs_holds. }
-    congruence. }
-  assert (Hnode : coh p d (Node k new dv None es1) = true).
-  { apply coh_node_iff. repeat split; auto. apply Hp.
-    destruct nm; [now rewrite set_names_shape|reflexivity]. }
-  destruct nm as [names|]; [now apply set_names_coh|exact Hnode].
+  intros t sz new p d Hc Hn Hp. destruct (set_bs sz t new) as [t' ok] eqn:E. cbn [fst].
+  destruct ok; [eapply set_bs_ok_coh; eauto|].
+  destruct t as [sh dd|k bs dv nm es]; [cbn in E; discriminate|].
+  rewrite set_bs_node in E.
+  destruct (sz && shape_eqb new bs); [discriminate|].
+  destruct (check_new_t new (Node k bs dv nm es)) eqn:Echk; cbn [negb] in E; [|now injection E as <-].
+  assert (Hok : snd (seq_children (grow new) es) = true).
+  { apply seq_children_all_ok. intros [key c] Hin. cbn [snd].
+    rewrite check_new_node, forallb_forall in Echk. pose proof (Echk _ Hin) as He. cbn [snd] in He. apply entry_ok_cases in He.
+    cbn [no_names_below] in Hn. rewrite forallb_forall in Hn. pose proof (Hn _ Hin) as Hcn. cbn [snd] in Hcn.
+    destruct c as [|ck cbs cdv cnm ces]; [reflexivity|]. cbn [grow].
+    destruct (prefixb new cbs); cbn [negb]; [reflexivity|]. now apply set_bs_total. }
+  destruct (seq_children (grow new) es) as [es1 ok1] eqn:Eseq. cbn [snd] in Hok. subst ok1. cbn [negb] in E.
+  (* only the names assignment of the node itself can have failed *)
+  destruct nm as [names|]; [|discriminate].
+  pose proof Hc as Hall. apply coh_node_iff in Hc as (H1 & H2 & H3 & H4). rewrite check_new_node in Echk.
+  assert (Hes1 : coh_ents new dv es1 = true).
+  { eapply grown_entries_coh; eauto. intros kv Hin sz0 new0 t0 p0 d0. apply set_bs_ok_coh. }
+  replace t' with (fst (set_names (Node k new dv None es1) (Some (new_names names new)))) by now rewrite E.
+  apply set_names_coh. apply coh_node_iff. auto.
+Qed.
+
+(* ---- no dim names: preserved ---- *)
+Lemma set_bs_no_names : forall t sz new, no_names t = true -> no_names (fst (set_bs sz t new)) = true.
+Proof.
+  induction t as [sh dd|k bs dv nm es IH] using tree_ind2; intros sz new Hn; [reflexivity|].
+  rewrite set_bs_node. destruct (sz && shape_eqb new bs); [exact Hn|].
+  destruct (check_new_t new (Node k bs dv nm es)); cbn [negb]; [|exact Hn].
+  cbn [no_names] in Hn. apply andb_true_iff in Hn as [Hnm Hnn]. destruct nm; [discriminate|].
+  assert (Hes : forallb (fun kv => no_names (snd kv)) (fst (seq_children (grow new) es)) = true).
+  { apply forallb_forall. apply Forall_forall.
+    apply (seq_children_Forall (grow new) (fun c => no_names c = true) (fun c => no_names c = true)); auto.
+    - apply Forall_forall. now apply forallb_forall.
+    - eapply Forall_impl; [|exact IH]. intros [key c] IHc Hc. cbn [snd] in *.
+      destruct c as [|ck cbs cdv cnm ces]; [reflexivity|]. cbn [grow].
+      destruct (prefixb new cbs); cbn [negb]; [exact Hc|now apply IHc]. }
+  destruct (seq_children (grow new) es) as [es1 ok1]. cbn [fst] in Hes.
+  destruct ok1; cbn [negb fst no_names]; exact Hes.
 Qed.
